@@ -22,5 +22,7 @@ def obligations(tier):
                   "two statements never share a mutable accumulator: two calls of each skeleton-building action return dicts without a common list / dict"))
     obs.append(Ob("C03.order/redefinition", "c04", "c_redefine", {}, t, ["simple_ddl_parser/output/core.py:Output.format, process_alter_and_index_result"],
                   "ALTER / CREATE INDEX results are merged where they occur: a table defined again later in the script does not receive them"))
+    obs.append(Ob("C03.alter-merge/3_alters", "c04", "c_seq", {}, t, ["simple_ddl_parser/output/core.py:Output.format, process_alter_and_index_result", "simple_ddl_parser/output/base_data.py:BaseData alter_* / prepare_alter_columns"],
+                  "three ALTER statements on one table, each any of 7 kinds (symbolic): what each contributes to its target table does not depend on the ALTERs before it (reference model = sequential fold)"))
     return obs + [Ob("C03.reset/all_flags", "lex", "c_reset", {"VF_CTX": 0}, t, FN,
                "every lexer flag symbolic (7 bools, lp_open/lt_open 0..3, last_token any string <= 10 chars, last_par any string <= 2 chars) x all 117 vocabulary words")]
